@@ -13,6 +13,8 @@ TIERS = {
     "C03": T(1500, 25000),
     "C04": T(2000, 30000),
     "C05": T(700, 12000),
+    "C13": T(350, 8000),
+    "C14": T(400, 8000),
     "C18": T(2500, 40000),
 }
 
@@ -37,6 +39,12 @@ ASSUMPTIONS = {
     "C04": ["the harness flushes before injecting a stall notice: the property is about admission, bytes already buffered cannot be recalled",
             "budget-related obligations use the C03 model"],
     "C05": ["preemption only at lock operations / sleeps / thread create-join (scheduler-owned), with an explicit preemption list or a seeded random policy"],
+    "C13": ["files are passed through the library's own fopen of <config_dir>/bidib_*_config.yml, redirected to in-memory "
+            "streams; NUL bytes inside a file are not generated",
+            "termination is judged by the virtual-time budget and wait-for-cycle detection, never by wall-clock time",
+            "the simulated interface either answers every request or stays completely silent"],
+    "C14": ["acceptance is only asserted for layouts present in the documented example configurations; rejection only for "
+            "the fault classes listed in the statement (e.g. a point and a signal sharing an accessory number is not asserted either way)"],
     "C01": ["every generated message is accepted for immediate transmission by construction (cumulative worst-case "
             "response budget per node <= 48 bytes); deferred messages are C03/C04",
             "the sequence byte is not compared here (C05)"],
